@@ -94,6 +94,9 @@ C20(a, b) ==
     THEN (IF a.panic # b.panic THEN {V("C20.panic-differs", <<a.what, a.api, a.panic, b.panic>>)} ELSE {})
          \cup (IF a.panic = b.panic /\ a.val # b.val THEN {V("C20.result", <<a.what, a.api, a.val, b.val>>)} ELSE {})
     ELSE IF a.k = "stats" THEN (IF a # b THEN {V("C20.result", "statistics")} ELSE {})
+    ELSE IF a.k = "reg"     \* registry histories up to 64 types: the capacity of the build (max) is the only difference
+    THEN (IF a.panic # b.panic THEN {V("C20.panic-differs", <<a.op, a.t, a.ids, a.panic, b.panic>>)} ELSE {})
+         \cup (IF a.id # b.id \/ a.ok # b.ok \/ a.count # b.count THEN {V("C20.result", <<a.op, a.t, a.ids>>)} ELSE {})
     ELSE {}
 
 Cmp(ev) == CASE ev.mode = "C12" -> C12(ev.a, ev.b)
